@@ -103,4 +103,192 @@ theorem table_asc : ascKeys Gen.formatTable = true := by table_decide
 set_option maxRecDepth 100000 in
 theorem table_names : namesOk Gen.formatTable = true := by table_decide
 
+open Scrub
+
+/-! ## lookup in the format table -/
+
+theorem lookup_of_mem {r : Str × List Str} (hr : r ∈ Gen.formatTable) : lookupFormat r.1 = some r.2 := by
+  unfold lookupFormat
+  rw [find?_of_ascKeys table_asc r hr]; rfl
+
+theorem name_chars {r : Str × List Str} (hr : r ∈ Gen.formatTable) :
+    r.1 ≠ [] ∧ ∀ c ∈ r.1, isNameChar c = true := by
+  have h := table_names
+  simp only [namesOk, List.all_eq_true, Bool.and_eq_true, Bool.not_eq_true', List.isEmpty_eq_false_iff] at h
+  exact h r hr
+
+theorem lookup_some_chars {n : Str} {ts : List Str} (h : lookupFormat n = some ts) :
+    n ≠ [] ∧ ∀ c ∈ n, isNameChar c = true := by
+  unfold lookupFormat at h
+  cases hf : Gen.formatTable.find? (fun r => r.1 == n) with
+  | none => simp [hf] at h
+  | some r =>
+    have h1 := List.find?_some hf
+    have h2 := List.mem_of_find?_eq_some hf
+    have : r.1 = n := by simpa using h1
+    exact this ▸ name_chars h2
+
+theorem lookup_none_of_char {n : Str} {c : Char} (hc : c ∈ n) (hn : isNameChar c = false) :
+    lookupFormat n = none := by
+  cases h : lookupFormat n with
+  | none => rfl
+  | some ts => have := (lookup_some_chars h).2 c hc; simp [hn] at this
+
+/-! ## `str.split(';')` -/
+
+theorem splitOnChar_ne_nil (sep : Char) : ∀ s : Str, Py.splitOnChar sep s ≠ []
+  | [] => by simp [Py.splitOnChar]
+  | c :: rest => by
+    simp only [Py.splitOnChar]
+    split
+    · simp
+    · split <;> simp
+
+theorem splitOnChar_no_sep (sep : Char) : ∀ s : Str, sep ∉ s → Py.splitOnChar sep s = [s]
+  | [], _ => rfl
+  | c :: rest, h => by
+    have h1 : (c == sep) = false := by
+      apply Bool.eq_false_iff.2; intro he; exact h (by simp [beq_iff_eq.1 he])
+    have h2 : sep ∉ rest := fun hm => h (List.mem_cons_of_mem _ hm)
+    simp [Py.splitOnChar, h1, splitOnChar_no_sep sep rest h2]
+
+theorem splitOnChar_append (sep : Char) : ∀ a b : Str, sep ∉ a →
+    Py.splitOnChar sep (a ++ sep :: b) = a :: Py.splitOnChar sep b
+  | [], b, _ => by simp [Py.splitOnChar]
+  | c :: rest, b, h => by
+    have h1 : (c == sep) = false := by
+      apply Bool.eq_false_iff.2; intro he; exact h (by simp [beq_iff_eq.1 he])
+    have h2 : sep ∉ rest := fun hm => h (List.mem_cons_of_mem _ hm)
+    simp [Py.splitOnChar, h1, splitOnChar_append sep rest b h2]
+
+/-! ## combining -/
+
+theorem combineInts_settings (ts : List Str) : combineInts (ts.map SOut.setting) [] = ts := by
+  induction ts with
+  | nil => rfl
+  | cons t ts ih => simp [combineInts, ih]
+
+theorem scrubItems_append (l₁ l₂ : List SArg) :
+    scrubItems (l₁ ++ l₂) = (do let a ← scrubItems l₁; let b ← scrubItems l₂; pure (a ++ b)) := by
+  induction l₁ with
+  | nil => 
+    simp [scrubItems]
+    cases scrubItems l₂ <;> rfl
+  | cons a l₁ ih =>
+    simp only [List.cons_append, scrubItems, ih]
+    cases scrubItem a <;> cases scrubItems l₁ <;> cases scrubItems l₂ <;> simp [bind, Except.bind, pure, Except.pure]
+
+theorem char_le_iff (a b : Char) : a ≤ b ↔ a.toNat ≤ b.toNat := by
+  rw [Char.le_def, UInt32.le_iff_toNat_le]; rfl
+
+theorem char_eq_iff (a b : Char) : a = b ↔ a.toNat = b.toNat := by
+  constructor
+  · intro h; rw [h]
+  · intro h; rw [← Char.ofNat_toNat a, ← Char.ofNat_toNat b, h]
+
+def normChar (c : Char) : Char := let c := upperAscii c; if c == ' ' || c == '-' then '_' else c
+
+theorem normName_eq_map (s : Str) : normName s = s.map normChar := rfl
+
+theorem isNameChar_iff (n : Char) : isNameChar n = true ↔
+    (65 ≤ n.toNat ∧ n.toNat ≤ 90) ∨ (48 ≤ n.toNat ∧ n.toNat ≤ 57) ∨ n.toNat = 95 := by
+  simp [isNameChar, char_le_iff, char_eq_iff, or_assoc]
+
+theorem normChar_variant (n c : Char) (hn : isNameChar n = true)
+    (h1 : 'A' ≤ n ∧ n ≤ 'Z' → c = n ∨ c.toNat = n.toNat + 32)
+    (h2 : n = '_' → c = '_' ∨ c = '-' ∨ c = ' ')
+    (h3 : '0' ≤ n ∧ n ≤ '9' → c = n) : normChar c = n := by
+  rw [isNameChar_iff] at hn
+  simp only [char_le_iff, char_eq_iff] at h1 h2 h3
+  have e1 : '_'.toNat = 95 := rfl
+  have e2 : '-'.toNat = 45 := rfl
+  have e3 : ' '.toNat = 32 := rfl
+  have e4 : 'A'.toNat = 65 := rfl
+  have e5 : 'Z'.toNat = 90 := rfl
+  have e6 : '0'.toNat = 48 := rfl
+  have e7 : '9'.toNat = 57 := rfl
+  simp only [e1,e2,e3,e4,e5,e6,e7] at h1 h2 h3
+  have key : ∀ u : Char, u.toNat = n.toNat → 
+      (if (u == ' ' || u == '-') = true then '_' else u) = n := by
+    intro u hu
+    have hun : u = n := (char_eq_iff _ _).2 hu
+    subst hun
+    have a1 : (u == ' ') = false := by
+      apply Bool.eq_false_iff.2; intro he; rw [beq_iff_eq, char_eq_iff, e3] at he; omega
+    have a2 : (u == '-') = false := by
+      apply Bool.eq_false_iff.2; intro he; rw [beq_iff_eq, char_eq_iff, e2] at he; omega
+    simp [a1, a2]
+  simp only [normChar, upperAscii, char_le_iff, Bool.and_eq_true, decide_eq_true_eq]
+  have e8 : 'a'.toNat = 97 := rfl
+  have e9 : 'z'.toNat = 122 := rfl
+  simp only [e8, e9]
+  by_cases hc : 97 ≤ c.toNat ∧ c.toNat ≤ 122
+  · have hcn : c.toNat - 32 = n.toNat := by omega
+    rw [if_pos hc, hcn, Char.ofNat_toNat]
+    exact key n rfl
+  · rw [if_neg hc]
+    by_cases hu : n.toNat = 95
+    · have hn' : n = '_' := (char_eq_iff _ _).2 hu
+      subst hn'
+      rcases h2 hu with h | h | h
+      · rw [(char_eq_iff c '_').2 h]; rfl
+      · rw [(char_eq_iff c '-').2 h]; rfl
+      · rw [(char_eq_iff c ' ').2 h]; rfl
+    · apply key; omega
+
+theorem normName_of_pointwise {name v : Str} (hlen : name.length = v.length)
+    (h : ∀ i (h1 : i < name.length) (h2 : i < v.length), normChar v[i] = name[i]) :
+    normName v = name := by
+  apply List.ext_getElem
+  · simp [normName_eq_map, hlen]
+  · intro i h1 h2
+    simp only [normName_eq_map, List.getElem_map]
+    exact h i h2 (by simpa [normName_eq_map] using h1)
+theorem scrubString_single {v : Str} (hne : v ≠ []) (hb : v.head? ≠ some '[') (hs : ';' ∉ v) :
+    scrubString v = scrubDirective v := by
+  cases v with
+  | nil => exact absurd rfl hne
+  | cons c rest =>
+    have hc : c ≠ '[' := fun h => hb (by simp [h])
+    unfold scrubString
+    split
+    · rename_i h; cases h
+    · rename_i h; injection h with h1 h2; exact absurd h1 hc
+    · rw [splitOnChar_no_sep ';' _ hs]
+      simp only [List.foldlM_cons, List.foldlM_nil, List.nil_append]
+      cases scrubDirective (c :: rest) <;> rfl
+
+theorem scrub_str_eq (v : Str) : scrub (.str v) = (do let r ← scrubString v; pure (combineInts r [])) := by
+  simp [scrub, scrubItem]
+
+theorem scrubDirective_of_lookup {v : Str} {ts : List Str} (h : lookupFormat (normName v) = some ts) :
+    scrubDirective v = .ok (ts.map .setting) := by
+  simp [scrubDirective, h]
+
+theorem scrub_str_name {v : Str} {ts : List Str} (hne : v ≠ []) (hb : v.head? ≠ some '[')
+    (hs : ';' ∉ v) (hl : lookupFormat (normName v) = some ts) : scrub (.str v) = .ok ts := by
+  rw [scrub_str_eq, scrubString_single hne hb hs, scrubDirective_of_lookup hl]
+  simp [bind, Except.bind, pure, Except.pure, combineInts_settings]
+
+theorem scrub_member {r : Str × List Str} (hr : r ∈ Gen.formatTable) : scrub (.member r.1) = .ok r.2 := by
+  simp [scrub, scrubItem, lookup_of_mem hr, bind, Except.bind, pure, Except.pure, combineInts_settings]
+
+theorem scrub_verbatim {t : Str} (ht : t ≠ []) : scrub (.str ('[' :: t)) = .ok [t] := by
+  have : t.isEmpty = false := by cases t <;> simp_all
+  simp [scrub, scrubItem, scrubString, this, bind, Except.bind, pure, Except.pure, combineInts]
+
+theorem scrub_obj (t : Str) : scrub (.obj t) = .ok [t] := by
+  simp [scrub, scrubItem, bind, Except.bind, pure, Except.pure, combineInts]
+
+theorem scrub_neg_int {i : Int} (h : i < 0) : scrub (.int i) = .error .valueError := by
+  simp [scrub, scrubItem, h, bind, Except.bind]
+
+theorem scrub_bad (t : Bool) : scrub (.bad t) = .error .typeError := by
+  simp [scrub, scrubItem, bind, Except.bind]
+
+theorem scrub_list_err {pre post : List SArg} {a : SArg} {e : PyErr} {p : List SOut}
+    (hp : scrubItems pre = .ok p) (ha : scrubItem a = .error e) :
+    scrub (.list (pre ++ [a] ++ post)) = .error e := by
+  simp [scrub, scrubItems_append, scrubItems, hp, ha, bind, Except.bind]
+
 end ScrubL
